@@ -231,13 +231,15 @@ def solve_outcomes(v, label, games, budget):
             continue
         m1 = res.get(name, {}).get("msg")
         m2 = res.get(name + "_no_prune", {}).get("msg")
-        ok1 = m1 == "Game solved" or (isinstance(m1, str) and m1.startswith("Error while solving the game:") and
-                                      "no solution" in m1.lower())
-        ok2 = m2 in ("Game solved", "Game not solved")
-        if not ok1 or not ok2 or (m1 != "Game solved") != (m2 == "Game not solved"):
+        from harness.sut import entry_failed_with, entry_not_solved, entry_solved
+        e1, e2 = res.get(name), res.get(name + "_no_prune")
+        solved1 = entry_solved(e1)
+        ok1 = solved1 or entry_failed_with(e1, "no solution")
+        ok2 = entry_solved(e2) if solved1 else entry_not_solved(e2)
+        if not ok1 or not ok2:
             v.fail("neither-solved-nor-no-solution", f"{label} {name}: messages {m1!r} / {m2!r}", sig=name)
         else:
-            v.cls("solved" if m1 == "Game solved" else "no_solution")
+            v.cls("solved" if solved1 else "no_solution")
 
 
 def check_spelling(case, v):
@@ -312,10 +314,24 @@ def check_case(case):
             for name in sorted(os.listdir(os.path.join(d, "inputs"))):
                 with open(os.path.join(d, "inputs", name), "rb") as f:
                     got[name] = f.read()
-            if p.returncode != 0 or got != files:
+            def _load(fs):
+                out = {}
+                for nm, data in fs.items():
+                    pth = os.path.join(d, "inputs", "__cmp__" + nm)
+                    with open(pth, "wb") as fh:
+                        fh.write(data)
+                    try:
+                        out[nm] = r.conditionalrewards.read_dict_from_file(pth)
+                    except Exception as e_:
+                        out[nm] = f"unloadable: {type(e_).__name__}"
+                    finally:
+                        os.remove(pth)
+                return out
+            # comments in the file may differ between the two ways of running; the games may not
+            if p.returncode != 0 or sorted(got) != sorted(files) or (got != files and _load(got) != _load(files)):
                 v.fail("command-line-differs", f"python roberta_generator.py {' '.join(args)} exited {p.returncode} and "
-                                               f"wrote {sorted(got)}; in-process main() wrote {sorted(files)}; "
-                                               f"stderr {p.stderr[-200:]}")
+                                               f"wrote {sorted(got)}; in-process main() wrote {sorted(files)} (or the "
+                                               f"files load into different games); stderr {p.stderr[-200:]}")
                 return v
     else:
         b = case["board"]
